@@ -150,7 +150,34 @@ r`
 func HarnessC10ThreadsAndSpawnArguments() {
 	a, b := verifrt.Int64(), verifrt.Int64()
 	env := (&scriptEnv{}).addInt("a", a).addInt("b", b)
-	switch verifrt.Choose(12) {
+	switch verifrt.Choose(13) {
+	case 12:
+		// a host function that spawns through object.Spawn and then reuses its
+		// argument buffer: each call still receives what was given at its spawn
+		env.add("fanout", object.NewBuiltin("fanout", func(ctx context.Context, args ...object.Object) object.Object {
+			if len(args) != 1 {
+				return object.Errorf("fanout: one argument")
+			}
+			buf := make([]object.Object, 1)
+			var ts []object.Object
+			for i := int64(0); i < 2; i++ {
+				buf[0] = object.NewInt(a + i)
+				t, err := object.Spawn(ctx, args[0], buf)
+				if err != nil {
+					return object.NewError(err)
+				}
+				ts = append(ts, t)
+			}
+			buf[0] = object.NewInt(b)
+			return object.NewList(ts)
+		}))
+		verifrt.Assume(a != b && a+1 != b)
+		run, _ := runConcurrent(`ts := fanout(func(p) { return p }); x := ts[0].wait(); y := ts[1].wait(); (x == a && y == a + 1) ? 1 : 0`, env)
+		verifrt.Assert(run.stage == "ok", "runs:"+run.stage)
+		if run.stage == "ok" {
+			iv, ok := asInt(run.result)
+			verifrt.Assert(ok && iv == 1, "spawn-through-the-host-api-fixes-its-arguments")
+		}
 	case 5:
 		// wait() may be called more than once and by more than one goroutine
 		run, _ := runConcurrent(`t := spawn(func(p) { return p + 1 }, a); x := t.wait(); y := t.wait(); x + y`, env)
